@@ -263,6 +263,10 @@ class USBTokenDetector(Elaboratable):
         token_data       = Signal(11)
         current_pid      = Signal.like(self.interface.pid)
 
+        # Set once a non-token packet has followed the reported token. A token covers at most
+        # the one packet that follows it; so it's stale when yet another packet starts.
+        token_used       = Signal()
+
         # Instantiate a dedicated inter-packet delay timer, which
         # we'll use to generate our `ready_for_response` signal.
         #
@@ -299,6 +303,14 @@ class USBTokenDetector(Elaboratable):
                 with m.If(self.utmi.rx_active):
                     m.next = "READ_PID"
 
+                    # If the reported token has already had its packet (e.g. its data), whatever starts
+                    # now doesn't belong to it; make sure endpoints don't attribute it to that token.
+                    with m.If(token_used):
+                        m.d.usb += [
+                            self.interface.pid  .eq(0),
+                            token_used          .eq(0)
+                        ]
+
 
             # READ_PID -- read the packet's ID, and determine if it's a token.
             with m.State("READ_PID"):
@@ -320,6 +332,7 @@ class USBTokenDetector(Elaboratable):
 
                     # Otherwise, ignore this packet as a non-token.
                     with m.Else():
+                        m.d.usb += token_used.eq(1)
                         m.next = "IRRELEVANT"
 
                         # A packet with a damaged PID could have been a token; make sure endpoints
@@ -399,6 +412,7 @@ class USBTokenDetector(Elaboratable):
                             m.d.usb += [
                                 self.interface.pid        .eq(current_pid),
                                 self.interface.new_token  .eq(1),
+                                token_used                .eq(0),
 
                                 Cat(self.interface.address, self.interface.endpoint).eq(token_data)
                             ]
